@@ -1080,3 +1080,175 @@ def canon_result(tf, stats):
 
 def is_nan_bits(b):
     return math.isnan(core.bits_float(b))
+
+
+# ------------------------------------------------------------------ path shapes, rewriting one path, file sizes
+# how a caller may name the cache file.  Every shape refers to a file inside the case's temp directory, which is the
+# working directory while the real code runs: a bare file name, './name', a relative path with a directory, an absolute
+# path, the same as pathlib.Path / os.PathLike objects, a directory name containing blanks and dots.
+PATH_SHAPES = ['abs', 'abs', 'bare', 'bare', 'dot', 'rel-dir', 'pathlib', 'pathlib-bare', 'pathlib-rel-dir', 'abs-nested', 'fspath']
+SAME_FILE_SHAPES = ['abs', 'abs', 'bare', 'bare', 'dot', 'pathlib', 'pathlib-bare', 'fspath']     # all denote <tmp>/<name>
+
+
+class _FsPath:
+    """an os.PathLike that is neither str nor pathlib.Path"""
+
+    def __init__(self, p):
+        self.p = p
+
+    def __fspath__(self):
+        return self.p
+
+
+def path_arg(tmp, name, shape):
+    """-> (the object handed to save / load / materialize, the absolute path it denotes).  Needed directories are created
+    (a missing directory makes torch.save raise in the unchanged library: observed, not generated)"""
+    import pathlib
+    shape = shape or 'abs'
+    sub = {'rel-dir': 'sub', 'pathlib-rel-dir': 'sub', 'abs-nested': os.path.join('a', 'b c.d')}.get(shape)
+    if sub:
+        os.makedirs(os.path.join(tmp, sub), exist_ok=True)
+    rel = os.path.join(sub, name) if sub else name
+    real = os.path.join(tmp, rel)
+    arg = {'abs': real, 'abs-nested': real, 'bare': name, 'dot': os.path.join('.', name), 'rel-dir': rel,
+           'pathlib': pathlib.Path(real), 'pathlib-bare': pathlib.Path(name), 'pathlib-rel-dir': pathlib.Path(rel),
+           'fspath': _FsPath(real)}[shape]
+    return arg, real
+
+
+class in_dir:
+    """run with `d` as the working directory"""
+
+    def __init__(self, d):
+        self.d = d
+
+    def __enter__(self):
+        self.old = os.getcwd()
+        os.chdir(self.d)
+
+    def __exit__(self, *exc):
+        os.chdir(self.old)
+        return False
+
+
+def scribbled_copy(tf):
+    """a frame of the same schema, shapes and dtypes whose every stored value differs (a refreshed table)"""
+    import torch_frame
+
+    def ch(t):
+        t = t.clone().contiguous()
+        if t.numel():
+            if t.is_floating_point():
+                t = torch.nan_to_num(t, nan=7.0, posinf=3.0, neginf=-3.0) * -3.0 + 1.5
+            elif t.dtype == torch.bool:
+                t = ~t
+            else:
+                t = t + 7
+        return t
+
+    def cl(x):
+        if isinstance(x, dict):
+            return {k: cl(v) for k, v in x.items()}
+        if isinstance(x, torch.Tensor):
+            return ch(x)
+        return x.__class__(x.num_rows, x.num_cols, ch(x.values), x.offset.clone().contiguous())
+    return torch_frame.TensorFrame({st: cl(f) for st, f in tf.feat_dict.items()},
+                                   {st: list(c) for st, c in tf.col_names_dict.items()},
+                                   None if tf.y is None else ch(tf.y))
+
+
+def frame_tensors(tf):
+    """every tensor of a frame, in a fixed order"""
+    out = []
+    for st in sorted(tf.feat_dict, key=lambda x: x.value):
+        f = tf.feat_dict[st]
+        for p_ in ([f[k] for k in sorted(f)] if isinstance(f, dict) else [f]):
+            out += [p_] if isinstance(p_, torch.Tensor) else [p_.values, p_.offset]
+    if tf.y is not None:
+        out.append(tf.y)
+    return out
+
+
+def tensors_identical(a, b):
+    """bit-level equality of two tensor lists (dtype, shape, payload; NaN == NaN), without python lists"""
+    if len(a) != len(b):
+        return False
+    for x, y in zip(a, b):
+        if x.dtype != y.dtype or x.shape != y.shape:
+            return False
+        if x.numel() and not torch.equal(x.contiguous().view(torch.uint8), y.contiguous().view(torch.uint8)):
+            return False
+    return True
+
+
+def rewrite_scenario(spec):
+    """one path written twice (spec: bytes wanted, seed, path shape): save(A, p); a = load(p); save(B, p) with B of the
+    same schema and size but different content; then `a` - the EARLIER result - must still equal A, load(p) must return B,
+    and a second reader of the first file must not be affected by writes into `a`.  Frames of `bytes` payload (tall float32 /
+    int64 columns + a ragged column + y), compared tensor-wise at the bit level.  -> list of findings"""
+    import tempfile
+    import shutil
+    import numpy as np
+    import torch_frame
+    from torch_frame.data import MultiNestedTensor
+    nbytes = spec['bytes']
+    R = max(4, nbytes // 40)
+
+    def build(salt):
+        # (the same draws for both frames: same schema, sizes and ragged layout, every value shifted by the salt)
+        rs = np.random.RandomState(spec['seed'])
+        num = torch.from_numpy(rs.standard_normal((R, 3)).astype('float32')) + salt
+        num[rs.randint(0, R, size=max(1, R // 50)), 0] = float('nan')
+        cat = torch.from_numpy(rs.randint(-1, 9, size=(R, 1)).astype('int64')) + salt
+        lens = rs.randint(0, 3, size=R)
+        off = torch.from_numpy(np.concatenate([[0], np.cumsum(lens)]).astype('int64'))
+        mc = MultiNestedTensor(R, 1, torch.from_numpy(rs.randint(0, 5, size=int(lens.sum())).astype('int64')) + salt, off)
+        return torch_frame.TensorFrame({torch_frame.numerical: num, torch_frame.categorical: cat,
+                                        torch_frame.multicategorical: mc},
+                                       {torch_frame.numerical: ['n0', 'n1', 'n2'], torch_frame.categorical: ['c'],
+                                        torch_frame.multicategorical: ['m']},
+                                       torch.from_numpy(rs.standard_normal(R).astype('float32')) + salt)
+    out = []
+    tmp = tempfile.mkdtemp(prefix='verif_c11_rw_')
+    try:
+        with in_dir(tmp):
+            arg, real = path_arg(tmp, 'table.pt', spec.get('shape'))
+            A = build(0)
+            statsA = {'n0': {'MEAN': 0.5, 'T': torch.arange(5)}}
+            quiet(torch_frame.save, A, statsA, arg)
+            if not os.path.isfile(real):
+                return [('rewrite/save-writes-nothing', f'save returned normally for the path {arg!r} (working directory = the '
+                         f'directory of the file) but no file exists at {real}', 'a file', 'missing')]
+            size = os.path.getsize(real)
+            a, sa = quiet(torch_frame.load, arg)
+            a2, _ = quiet(torch_frame.load, arg)
+            refA = [t.clone() for t in frame_tensors(A)]
+            if not tensors_identical(frame_tensors(a), refA):
+                out.append(('rewrite/roundtrip', f'load(save(A)) != A for a {size}-byte file', None, None))
+            # the table is refreshed: same schema, same sizes, other content - through the same path
+            B = build(3)
+            statsB = {'n0': {'MEAN': 7.5, 'T': torch.arange(5) + 3}}
+            quiet(torch_frame.save, B, statsB, arg)
+            if not tensors_identical(frame_tensors(a), refA):
+                out.append(('rewrite/earlier-result-changed', f'a frame loaded from a {size}-byte file changed when the same path '
+                            'was written again', 'the frame that was loaded', 'the content of the new file'))
+            if not (torch.equal(sa['n0']['T'], torch.arange(5)) and sa['n0']['MEAN'] == 0.5):
+                out.append(('rewrite/earlier-stats-changed', f'statistics loaded from a {size}-byte file changed when the same '
+                            'path was written again', None, None))
+            b, sb = quiet(torch_frame.load, arg)
+            if not tensors_identical(frame_tensors(b), frame_tensors(B)) or sb['n0']['MEAN'] != 7.5:
+                out.append(('rewrite/stale-read', f'after save(B, p) over an existing {size}-byte file, load(p) does not return B',
+                            None, None))
+            # a write into one loaded frame stays there
+            before = [t.clone() for t in frame_tensors(b)]
+            for t in frame_tensors(a2):
+                if t.numel() and t.is_floating_point():
+                    t.mul_(0.0)
+            b2, _ = quiet(torch_frame.load, arg)
+            if not tensors_identical(frame_tensors(b2), before) or not tensors_identical(frame_tensors(b), before):
+                out.append(('rewrite/write-into-loaded-frame-leaks', 'an in-place write into a loaded frame changed the file or '
+                            'another loaded frame', None, None))
+            spec['observed_file_bytes'] = size
+    finally:
+        shutil.rmtree(tmp, ignore_errors=True)
+    return out
